@@ -78,5 +78,6 @@ func (p *Pubcomp) Unpack(r io.Reader) error {
 		}
 		return p.Properties.Unpack(bufr, PUBCOMP)
 	}
-	return nil
+	// a v3 acknowledgement is exactly the packet identifier
+	return codes.ErrMalformed
 }
